@@ -68,6 +68,9 @@ def correspondence(ctx):
         for _ in range(2000 if ctx.tier == 'quick' else 50000):
             n = ctx.rng.randrange(3, 10)
             cases.append(f'prof|{prof}|enforce|f|b|{hexs([ctx.rng.choice(alpha) for _ in range(n)])}|')
+    for s_ in mark_structures(ctx):
+        for prof_ in ('um', 'up', 'op', 'nick'):
+            cases.append(f'prof|{prof_}|enforce|f|b|{hexs(s_)}|')
     res = run_cases(cases, ctx.work)
     # second phase: classify every accepted output and enforce it again
     phase2 = []
